@@ -12,6 +12,10 @@ Theorem no_public_unlocked_access :
   forallb (fun m => negb (m_public m) || match m_unlocked m with [] => true | _ => false end) (lock_table_v1 ++ lock_table_v2) = true.
 Proof. vm_compute. reflexivity. Qed.
 
+(* every public method of both clients enters at most one critical section per call (the batch calls included) *)
+Theorem clients_one_section_per_call : one_section_per_call lock_table_v1 = true /\ one_section_per_call lock_table_v2 = true.
+Proof. vm_compute. split; reflexivity. Qed.
+
 Lemma flat_map_app {A B} (f : A -> list B) l1 l2 : flat_map f (l1 ++ l2) = flat_map f l1 ++ flat_map f l2.
 Proof. induction l1; cbn; auto. now rewrite IHl1, app_assoc. Qed.
 
